@@ -127,7 +127,8 @@ Definition RopsC (call : val R -> list (val R) -> val R) : FloatOps R := {|
   f_rad2deg := 180 / PI;
   f_fsum := fun l => fold_right Rplus 0 l;
   f_dom := Rdom;
-  f_call := call
+  f_call := call;
+  f_repr := fun _ => String.EmptyString
 |}.
 
 Definition Rops : FloatOps R := RopsC (fun _ _ => VErr Unsupported).
